@@ -605,6 +605,55 @@ fn find_store_consistency() {
     println!("NO-WITNESS find_store_consistency");
 }
 
+/// the promises of the reverse lookups (C01: "where the API promises chronological or duplicate-free results, that promise holds too"):
+/// an annotation is listed once per item however often it names it, and lookups that declare themselves sorted are in chronological order
+#[test]
+fn find_lookup_promises() {
+    let known = known_keys("find_lookup_promises");
+    let mut problems: Vec<(String, String)> = vec![];
+    {
+        let mut store = AnnotationStore::default()
+            .with_resource(TextResourceBuilder::new().with_id("r").with_text("Hello wonderful world")).unwrap()
+            .with_dataset(AnnotationDataSetBuilder::new().with_id("s")).unwrap();
+        store.annotate(AnnotationBuilder::new().with_id("A0").with_target(SelectorBuilder::textselector("r", Offset::simple(0, 5))).with_data("s", "k", "v")).unwrap();
+        // B names the same text, the same annotation and the same data twice
+        store.annotate(AnnotationBuilder::new().with_id("B").with_target(SelectorBuilder::multiselector(vec![
+            SelectorBuilder::textselector("r", Offset::simple(6, 15)), SelectorBuilder::textselector("r", Offset::simple(6, 15)),
+            SelectorBuilder::annotationselector("A0", None), SelectorBuilder::annotationselector("A0", None)]))
+            .with_data("s", "k2", "x").with_data("s", "k2", "x")).unwrap();
+        let ts = store.resource("r").unwrap().textselection(&Offset::simple(6, 15)).unwrap();
+        let n_text = ts.annotations().filter(|a| a.id() == Some("B")).count();
+        let n_ann = store.annotation("A0").unwrap().annotations().filter(|a| a.id() == Some("B")).count();
+        let n_data = store.key("s", "k2").unwrap().data().next().unwrap().annotations().filter(|a| a.id() == Some("B")).count();
+        if n_text != 1 || n_ann != 1 || n_data != 1 {
+            problems.push(("an annotation that names the same item twice is listed twice".to_string(), format!("B is listed {} times for its text, {} times for the annotation it targets (documented: without duplicates), {} times for its data", n_text, n_ann, n_data)));
+        }
+        let sets: Vec<String> = store.annotation("B").unwrap().datasets().map(|d| d.id().unwrap_or("?").to_string()).collect();
+        let _ = sets;
+    }
+    {
+        let tv = "https://w3id.org/stam/extensions/stam-textvalidation/";
+        let mut store = AnnotationStore::default()
+            .with_resource(TextResourceBuilder::new().with_id("r").with_text("Hello wonderful world")).unwrap()
+            .with_dataset(AnnotationDataSetBuilder::new().with_id("s")).unwrap();
+        store.annotate(AnnotationBuilder::new().with_id("A0").with_target(SelectorBuilder::textselector("r", Offset::simple(0, 5))).with_data("s", "k", "v")).unwrap();
+        store.annotate(AnnotationBuilder::new().with_id("A1").with_target(SelectorBuilder::textselector("r", Offset::simple(0, 5))).with_data(tv, "text", "Hello")).unwrap();
+        store.protect_text(TextValidationMode::Text).unwrap();
+        let key = store.key(tv, "text").unwrap();
+        for data in key.data() {
+            let it = data.annotations();
+            let sorted = it.returns_sorted();
+            let got: Vec<AnnotationHandle> = it.map(|a| a.handle()).collect();
+            let mut want = got.clone(); want.sort();
+            if sorted && got != want { problems.push(("protect_text appends to the data index out of chronological order".to_string(), format!("data.annotations() declares itself sorted and yields {:?}", got))); }
+        }
+    }
+    for (key, what) in problems {
+        if known.contains(&key) { println!("KNOWN {}", key); } else { println!("WITNESS {{\"clause\":\"promises of the reverse lookups\",\"problem\":{:?},\"observed\":{:?}}}", key, what); return; }
+    }
+    println!("NO-WITNESS find_lookup_promises");
+}
+
 /// clauses SegmentationIter::next  (C07): segments partition the text and cut exactly at the begins and ends of known selections
 #[test]
 fn find_segmentation() {
